@@ -241,7 +241,8 @@ PLAN["C04"] = dict(
                              + names("c04", C04_CROSS[:8], bound="value of T symbolic, read as near-miss U", what="refused with the expected hash error", covers="none")
                              + [twin("c04::c04_twin_reach")], timeout=900)],
     thorough=lambda seed: [dict(harnesses=names("c04", C04_WORDS, bound="all 2^128 digest words", what="hash errors by priority")
-                                + names("c04", C04_TABLES + ["c04_table_universe"], bound="evaluation (no symbolic input)", what="digest tables", covers="none")
+                                + names("c04", C04_TABLES, bound="evaluation (no symbolic input)", what="digest tables", covers="none")
+                                + names("c06", [f"c06_digests_{i}" for i in range(_C06["digest_chunks"])], bound="evaluation: current digest of every universe type == the recorded one; the recorded type digests are pairwise distinct (asserted by bin/gen_golden.py)", what="universe-wide distinctness of type digests", covers="none")
                                 + names("c04", C04_CROSS, bound="value of T symbolic, read as near-miss U", what="refused with the expected hash error", covers="none")
                                 + [twin("c04::c04_twin_reach")], timeout=3600)],
     bounds={"stored_digests": "all 2^128 values (solver)", "tables": "universe (106 cases) + 23 near-miss mutants (harness/src/mutants.rs): evaluated, 0 solver variables"},
@@ -262,7 +263,10 @@ def c06_jobs(tier):
         hs.append(H("c06::" + nm, bound=f"{row.get('ty', case)}: all values, shape {sh}; header + value",
                     what=("bytes == reference encoder with golden digests; reference bytes read back in both modes" if fn == "conform" else "bytes == reference encoder with golden digests (stream > 64 B: no read-back)"),
                     role=f"c06/{case}"))
-    hs += names("c06", [f"c06_digests_{i}" for i in range(_C06["digest_chunks"])] + ["c06_digests_mutants"], bound="evaluation: current digests vs digests recorded from the pinned build", what="golden digests", covers="none")
+    dig = [f"c06_digests_{i}" for i in range(_C06["digest_chunks"])] + [f"c06_digests_mutants_{i}" for i in range(_C06["mutant_chunks"])]
+    if tier == "quick":
+        dig = dig[::3]
+    hs += names("c06", dig, bound="evaluation: current digests vs digests recorded from the pinned build (6 types per harness)", what="golden digests", covers="none")
     corp = _C06["corpus"] if tier == "thorough" else _C06["corpus"][::3]
     hs += names("c06", ["c06_corpus_" + c for c in corp], bound="evaluation on a file written by the pinned build", what="decodes to the recorded value in both modes", covers="none")
     hs += [twin("c06::c06_twin_reach")]
@@ -425,7 +429,7 @@ PLAN["C17"] = dict(
 
 C18_ALL = _fns("c18.rs", r"^\s+(c18_\w+) @")
 PLAN["C18"] = dict(
-    quick=lambda seed: [dict(harnesses=names("c18", ["c18_zeros_p1", "c18_u32_p1", "c18_deeps_some", "c18_deeps_empty", "c18_vecu128_p0", "c18_zal32_p8", "c18_hold_zst", "c18_toplevel_u32"], bound="concrete shape, field values symbolic, start residue per instance", what="bytes equal plain serialization; rows pre-order/in-stream/tiling/zero padding/aligned; debug() and to_csv() run", covers="none")
+    quick=lambda seed: [dict(harnesses=names("c18", ["c18_zeros_p1", "c18_u32_p1", "c18_deeps_some", "c18_vecu128_p0", "c18_zal32_p8", "c18_hold_zst", "c18_toplevel_u32"], bound="concrete shape, field values symbolic, start residue per instance", what="bytes equal plain serialization; rows pre-order/in-stream/tiling/zero padding/aligned; debug() and to_csv() run", covers="none")
                              + [twin("c18::c18_twin_reach")], timeout=900, jobs=5)],
     thorough=lambda seed: [dict(harnesses=names("c18", C18_ALL + ["c18_toplevel_u32"], bound="concrete shape, field values symbolic", what="schema rows vs bytes", covers="none") + [twin("c18::c18_twin_reach")], timeout=2400, jobs=5)],
     bounds={"shapes": "20 concrete shapes incl. 16- and 32-aligned blocks at gaps of 8/16/24/1 bytes, zero-sized fields, empty sequences, nested composites, header rows (top level u32)"},
